@@ -164,6 +164,22 @@ def guards():
     return rows
 
 
+def resize_guards():
+    """every comparison that mentions `num_quanta` in a `resize` / `resize_fock` method:
+    (file, class.function, normalised comparison) -- the decision whether a shrink is allowed"""
+    rows = []
+    for fn in sorted(glob.glob(os.path.join(REPO, "photon_weave", "state", "*.py"))):
+        rel = os.path.relpath(fn, REPO)
+        tree = ast.parse(open(fn).read())
+        for cls in [n for n in ast.walk(tree) if isinstance(n, ast.ClassDef)]:
+            for f in cls.body:
+                if isinstance(f, ast.FunctionDef) and f.name in ("resize", "resize_fock"):
+                    for n in ast.walk(f):
+                        if isinstance(n, ast.Compare) and "num_quanta" in norm_src(n):
+                            rows.append((rel, f"{cls.name}.{f.name}", norm_src(n)))
+    return rows
+
+
 def lstr(xs):
     return "[" + ", ".join('"' + x + '"' for x in xs) + "]"
 
@@ -209,6 +225,12 @@ def main():
     gs = guards()
     for k, (a, b, c, d) in enumerate(gs):
         L.append(f'  ("{a}", "{b}", "{c}", "{d}")' + ("," if k < len(gs) - 1 else ""))
+    L.append("]\n")
+    L.append("/-- shrink decisions: comparisons on `num_quanta` in the resize methods (file, class.function, comparison) -/")
+    L.append("def resizeGuards : List (String × String × String) := [")
+    rg = resize_guards()
+    for k, (a, b, c) in enumerate(rg):
+        L.append(f'  ("{a}", "{b}", "{c}")' + ("," if k < len(rg) - 1 else ""))
     L.append("]\n")
     L.append("/-- normalised source of `kraus_identity_check` -/")
     L.append("def krausCheckSource : List String := " + lstr([x.replace('"', "'") for x in kraus_check_source()]) + "\n")
